@@ -6,7 +6,7 @@ keeps the staging-directory state `Arts` between deployments.
 
 ```
 begin                      start a source description (clears the previous one)
-src <rid> <content> <mtime>
+src <rid> <content> <mtime>                   mtime: seconds since the epoch as a 64-bit time_t (may exceed 2^31, may be negative)
 cfg <cfgid> <ok 0|1> <rid,rid,…|->          what compiling <cfgid> enumerates; ok=0: nothing is saved
 proj <cfgid> <list a,b|-|none> <dict|-> <prism|-> <packs|-> <deps|->
 schema <sid> <present 0|1> <ok 0|1>
@@ -72,7 +72,7 @@ def Desc.toEnv (d : Desc) : Env DK :=
         let pr := match d.proj.find? (·.1 == id) with
           | some (_, l, dict, prism, packs, deps) => (l, dict, prism, packs, deps)
           | none => (none, none, "", [], [])
-        some { stamps := rids.map fun r => (r, match S r with | some p => p.2 | none => 0)
+        some { stamps := rids.map fun r => (r, match S r with | some p => recorded p.2 | none => 0)
                inputs := rids.map fun r => (r, (S r).map (·.1))
                schemaList := pr.1, dict := pr.2.1, prism := pr.2.2.1, packs := pr.2.2.2.1, deps := pr.2.2.2.2 }
       | _ => none
@@ -83,7 +83,7 @@ def Desc.toEnv (d : Desc) : Env DK :=
     zero := (none, [])
     fck := fun a => (some a, []) }
 
-def showStamps (l : List (Rid × Time)) : String :=
+def showStamps (l : List (Rid × Stamp)) : String :=
   if l.isEmpty then "-" else ",".intercalate (l.map fun p => p.1 ++ "=" ++ toString p.2)
 
 def showInputs (l : List (Rid × Option Content)) : String :=
@@ -134,11 +134,13 @@ def DState.showState (st : DState) : List String :=
 
 def parseNats (s : String) : Option (List Nat) := (splitList s).mapM (·.toNat?)
 
+def parseInts (s : String) : Option (List Int) := (splitList s).mapM (·.toInt?)
+
 def step (st : DState) (line : String) : DState × List String :=
   match line.trimAscii.toString.splitOn " " with
   | ["begin"] => ({ st with desc := {} }, [])
   | ["src", r, c, t] =>
-    match c.toNat?, t.toNat? with
+    match c.toNat?, t.toInt? with
     | some c, some t => ({ st with desc := { st.desc with src := st.desc.src ++ [(r, c, t)] } }, [])
     | _, _ => (st, ["bad-op"])
   | ["cfg", id, ok, rids] =>
@@ -167,14 +169,14 @@ def step (st : DState) (line : String) : DState × List String :=
       | none => (st, ["bad-op"])
     | _, _ => (st, ["bad-op"])
   | ["deploy", now] =>
-    match now.toNat? with
+    match now.toInt? with
     | some now =>
       let r := deploy st.desc.toEnv st.desc.toSrc now st.arts
       let st1 := r.2.2.foldl DState.noteEvent { st with arts := r.1 }
       (st1, r.2.2.map showEvent ++ ["result " ++ (if r.2.1 then "1" else "0")] ++ st1.showState ++ ["end"])
     | none => (st, ["bad-op"])
   | ["detect", lb, ts] =>
-    match (if lb == "state" then some st.arts.lastBuild else lb.toNat?), parseNats ts with
+    match (if lb == "state" then some st.arts.lastBuild else lb.toInt?), parseInts ts with
     | some lb, some ts => (st, ["detect " ++ (if detectModifications ts lb then "1" else "0")])
     | _, _ => (st, ["bad-op"])
   | ["reset"] => ({ st with arts := Arts.empty, cfgNames := [], tableNames := [], prismNames := [], reverseNames := [] }, ["ok"])
